@@ -88,9 +88,16 @@ func (rp *RuleParser) ParseVariables(vars string) error {
 					}
 				}
 				// we skip one additional character
+				if i+2 < len(vars) && vars[i+2] != '|' {
+					return fmt.Errorf("unexpected text after quoted key: %q", vars)
+				}
 				i += 2
 				isquoted = false
 			} else if curr == 2 {
+				// after the closing slash only the next variable may follow
+				if i+1 < len(vars) && vars[i+1] != '|' {
+					return fmt.Errorf("unexpected text after regular expression key: %q", vars)
+				}
 				i++
 			}
 
